@@ -872,7 +872,14 @@ impl KotoVm {
                     Ok((recover_register, ip)) => {
                         let catch_value = match error.error {
                             ErrorKind::KotoError { thrown_value, .. } => thrown_value,
-                            _ => KValue::Str(error.to_string().into()),
+                            _ => {
+                                // The caught value is the error's message, without the trace
+                                // that was gathered if the error came out of a nested execution
+                                // (e.g. a callback called from a native function).
+                                let mut error = error;
+                                error.trace.clear();
+                                KValue::Str(error.to_string().into())
+                            }
                         };
 
                         // A failed call may have truncated the stack below this frame's registers
